@@ -80,6 +80,10 @@ Fixpoint disjointb (l : list (list chan)) : bool :=
   | x :: r => forallb (fun y => negb (existsb (fun c => cmem c y) x)) r && disjointb r
   end.
 
+(* some channel of the list is kept (not mapped to nothing) *)
+Definition kept_any (cm : chanmap) (chs : list chan) : bool :=
+  existsb (fun c => match cm c with Some _ => true | None => false end) chs.
+
 Fixpoint denote_atom (a : atom) (rho : env) (cm : chanmap) : result (option piece) :=
   match a with
   | AConst d amps =>
@@ -106,16 +110,24 @@ Fixpoint denote_atom (a : atom) (rho : env) (cm : chanmap) : result (option piec
                                  (fst (fst row), match snd (fst row) with [x] => x | vs => nth k vs 0 end, snd row)) rows in
       tables_piece d (kept_tables cm (map (fun k => (nth k chs (ChI 0), lead false (col k))) (seq 0 (length chs))))
   | AMulti l =>
-      subs <- (fix go (l : list atom) : result (list piece) :=
-                 match l with
-                 | [] => Ok []
-                 | x :: r => o <- denote_atom x rho cm ;; ps <- go r ;;
-                             Ok (match o with Some p => p :: ps | None => ps end)
-                 end) l ;;
+      (* the parts must have EQUAL durations.  A part that denotes nothing although one of its channels is kept has a
+         duration <= 0 (second component of the result: "there is such a part"); next to a part of positive duration
+         the durations are unequal and the template denotes nothing (Err), as for two unequal positive durations.
+         Parts all of whose channels are dropped do not count. *)
+      sg <- (fix go (l : list atom) : result (list piece * bool) :=
+               match l with
+               | [] => Ok ([], false)
+               | x :: r => o <- denote_atom x rho cm ;; pg <- go r ;;
+                           Ok (match o with
+                               | Some p => (p :: fst pg, snd pg)
+                               | None => (fst pg, kept_any cm (atom_chans x) || snd pg)
+                               end)
+               end) l ;;
+      let subs := fst sg in
       match subs with
       | [] => Ok None
       | p0 :: r =>
-          if forallb (fun p => Qeq_bool (pdur p) (pdur p0)) r && disjointb (map pchans subs)
+          if negb (snd sg) && forallb (fun p => Qeq_bool (pdur p) (pdur p0)) r && disjointb (map pchans subs)
           then Ok (Some (mkPiece (pdur p0) (flat_map pchans subs)
                                  (fun c t => match find (fun p => cmem c (pchans p)) subs with
                                              | Some p => pval p c t
